@@ -143,8 +143,8 @@ PROPS = {
             "explanation": "K-BLK: Kani function contract on the real below_limit_blocking over a virtual clock (u64 microseconds) whose division is abstracted to an arbitrary function (Ackermann encoding), so the result holds for every clock with a deterministic div_duration_f64. V-FW (generic in T): accounting step of BlockingBegin / BlockingEnd with saturating time differences, repeated begins keep the first start [C03.acct]; provenance of BlockOutgoing slots [C03.prov]; postcondition of trigger_events for single-event calls [C03.single]."},
     "C04": {"verus": ["vfw"], "kani": ["k_clamp_timeout", "k_clamp_duration", "k_sample_fields"], "title": "Output contract",
             "explanation": "Slot invariant for every reachable framework state: slot i is None or an action naming machine i with kind / flags / timer of the action declared in some state of machine i and every duration <= 86 400 000 000 us [C04.slot][C04.shape]; every call starts from empty slots [C04.clear]; transition is the identity on ended machines and, folded over the loops of a call, a machine that had ended before the call stays ended and its slot is None at return [C04.end] (postcondition of trigger_events); the clamps of sample_timeout / sample_duration are proved by Kani for every f64 the distribution could return [C04.clamp]. 'At most one action per machine, distinct machines' is the slot invariant plus the dropped iterator tail (assumed)."},
-    "C05": {"verus": ["vsem"], "kani": [], "ambient_scan": True, "untagged": "C05.sem", "title": "Deterministic function matching the stated semantics",
-            "explanation": "V-SEM: the real bodies of trigger_events, process_event, transition, update_counter, schedule_action, decrement_limit and below_action_limits are proved to satisfy `final.view() == sem_f(old.view(), args)` where view() is the whole instance as a mathematical value (runtimes, slots, RNG, clock, accounting, pending signal) and sem_trigger / sem_event / sem_all / sem_round / sem_transition / sem_update_counter / sem_schedule / sem_decrement are spec functions written from the documented operational semantics (events in order, machines in index order, LimitReached and CounterZero at once, one round of signals). Equality with a function is determinism: equal instances (e.g. an instance and its clone) fed equal inputs have equal views and return equal slots. Assumed: every leaf sampler is a function of its arguments and the RNG state, the two limit predicates and the clock arithmetic are functions of their arguments [C05.det] - justified by the mechanical ambient-authority scan [C05.ambient] (no static mut, thread_local, Cell/RefCell/Atomic, Instant::now, SystemTime, thread_rng, OsRng, unsafe in the non-test code of crates/maybenot/src); Framework::new is not covered."},
+    "C05": {"verus": ["vsem", "vfw"], "kani": [], "ambient_scan": True, "untagged": "C05.sem", "untagged_units": ["vsem"], "title": "Deterministic function matching the stated semantics",
+            "explanation": "V-SEM: the real bodies of trigger_events, process_event, transition, update_counter, schedule_action, decrement_limit and below_action_limits are proved to satisfy `final.view() == sem_f(old.view(), args)` where view() is the whole instance as a mathematical value (runtimes, slots, RNG, clock, accounting, pending signal) and sem_trigger / sem_event / sem_all / sem_round / sem_transition / sem_update_counter / sem_schedule / sem_decrement are spec functions written from the documented operational semantics (events in order, machines in index order, LimitReached and CounterZero at once, one round of signals). Equality with a function is determinism: equal instances (e.g. an instance and its clone) fed equal inputs have equal views and return equal slots. Assumed: every leaf sampler is a function of its arguments and the RNG state, the two limit predicates and the clock arithmetic are functions of their arguments [C05.det] - justified by the mechanical ambient-authority scan [C05.ambient] (no static mut, thread_local, Cell/RefCell/Atomic, Instant::now, SystemTime, thread_rng, OsRng, unsafe in the non-test code of crates/maybenot/src). The starting point of every history is covered by V-FW's contract of Framework::new: every field of the instance handed out is given as a function of the arguments - configuration and clock origin unaltered, every machine in state 0 with zero counters and accounting, empty slots, nothing pending, and each machine's first limit sampled from ITS OWN state-0 action in index order from the generator handed in, the generator left as init_limits says [C05.init]."},
     "C06": {"verus": ["vfw"], "kani": ["k_event_index", "k_state_new", "k_state_new_limits", "k_sample_none", "k_sample_1", "k_sample_2", "k_sample_3", "k_sample_4"],
             "title": "Transition probabilities",
             "explanation": "V-FW (unbounded in the list length): the real body of State::sample_state returns pick(list, r, 0) where r is the single uniform draw and pick is written from the statement - thresholds are the running f32 sums p1, p1+p2, .. in list order, the first threshold above r wins, no threshold above r => no transition, no list for the event => None and no draw [C06.pick][C06.draw]; f32 < and + are uninterpreted functions of their operands there (rules R11, R12, R15). K-SAMPLE (bit-precise, BOUNDED in the list length: k = 1, 2, 3 quick; 4 thorough): sample_state executed through the real rand 0.8 gen_range(0.0..1.0) equals the cumulative-threshold specification for every 32-bit RNG word and every validated probability vector, a probability-1 transition is always taken, Event::to_usize is the discriminant; State::new stores exactly the declared pairs in the declared order (BOUNDED: one event, no or two pairs) [C06.stored]. The counting step from thresholds to shares (within 2^-23) is done on paper in DESIGN.md."},
